@@ -7,6 +7,7 @@ import (
 	"fmt"
 	"io"
 	"strings"
+	"sync/atomic"
 	"time"
 	"unicode/utf8"
 
@@ -164,17 +165,26 @@ func envFor(aliases map[string]string) *interp.ExecEnv {
 // runParse runs one parse under a watchdog: a call that does not return
 // within hangTimeout is reported as panic "HANG" (its goroutines leak).
 func runParse(c parseCase) parseObs {
+	if atomic.LoadInt32(&hangs) > maxHangs {
+		// too many hangs in this process already: do not pile up more leaked goroutines
+		return parseObs{ID: c.ID, Err: proj.ErrInfo{Class: "skipped"}, Sk: []string{}, Shapes: []string{}, Hd: []proj.HdObs{}, Comments: []commentObs{}, Remaining: -1}
+	}
 	ch := make(chan parseObs, 1)
 	go func() { ch <- runParse1(c) }()
 	select {
 	case o := <-ch:
 		return o
 	case <-time.After(hangTimeout):
+		atomic.AddInt32(&hangs, 1)
 		return parseObs{ID: c.ID, Err: proj.ErrInfo{Class: "hang"}, Sk: []string{}, Shapes: []string{}, Hd: []proj.HdObs{}, Comments: []commentObs{}, Remaining: -1, Panic: "HANG"}
 	}
 }
 
-var hangTimeout = 5 * time.Second
+var hangTimeout = 3 * time.Second
+
+var hangs int32
+
+const maxHangs = 3
 
 func runParse1(c parseCase) (o parseObs) {
 	o.ID = c.ID
